@@ -37,7 +37,7 @@ class Sym:
             for s in blk['s']:
                 if s['k'] == 'assign' and s['rv']['r'] == 'agg' and s['rv']['k'] == 'closure' and s['rv'].get('def') == fn.path:
                     for i, o in enumerate(s['rv']['o']):
-                        self._caps[i] = ps.operand(o, 2)
+                        self._caps[i] = _outer(ps.operand(o, 2))
         return self._caps
 
     def local(self, n, depth=0, seen=()):
@@ -47,7 +47,9 @@ class Sym:
         if 1 <= n <= fn.argc:
             if n == 1 and fn.impl_adt and fn.locals[1].get('adt') == fn.impl_adt:
                 return ('self',)
-            return ('arg', n, fn.var_name(n) or ('arg%d' % n))
+            # parameters are named by position (`arg2` = second parameter incl. self): rules must not depend on what a
+            # maintainer calls them; the source name is kept for messages only (see q.pretty)
+            return ('arg', n, 'arg%d' % n)
         d = fn.single_def(n)
         if d is None:
             ds = fn.defs().get(n, [])
@@ -163,11 +165,21 @@ def strip(x):
             return x
 
 
+def _outer(t):
+    """parameters of the enclosing function seen from inside a closure body: tagged ('parg', n, '^argN') so that they cannot be
+    confused with the closure's own parameters (both are named by position)"""
+    if isinstance(t, tuple):
+        if len(t) == 3 and t[0] == 'arg' and isinstance(t[1], int):
+            return ('parg', t[1], '^' + t[2])
+        return tuple(_outer(x) for x in t)
+    return t
+
+
 def render(x, short=True):
     k = x[0]
     if k == 'const':
         return x[1]
-    if k == 'arg':
+    if k in ('arg', 'parg'):
         return x[2]
     if k == 'self':
         return 'self'
@@ -216,8 +228,8 @@ def roots(x, out=None):
     if out is None:
         out = set()
     k = x[0]
-    if k in ('const', 'arg', 'self', 'local', 'phi', 'fn'):
-        out.add(x if k != 'arg' else ('arg', x[1]))
+    if k in ('const', 'arg', 'parg', 'self', 'local', 'phi', 'fn'):
+        out.add(x if k not in ('arg', 'parg') else (k, x[1]))
     elif k == 'field':
         b = x
         names = []
